@@ -106,7 +106,9 @@ def _build(ctx: F.Ctx):
     a3 = list(_lists(base, p["len_g3"]))
     a2 = list(_lists(base + [("grp", 2)], p["len_g2"]))
     a1 = list(_lists(base + [("grp", 1), ("grp", 2)], p["len_g1"]))
-    arg_alpha = [("grp", 0), ("grp", 1), ("grp", 2), ("path", argf[0]), ("path", argf[1])]
+    # ordinary path arguments are left untouched, also when they look like member patterns
+    arg_alpha = [("grp", 0), ("grp", 1), ("grp", 2), ("path", argf[0]), ("path", argf[1]),
+                 ("path", "{yyyymmdd[0]}_lit.zo"), ("path", "t_{{x}}.zo")]
     ordinary = H.rotate(_ORDINARY, ctx.seed)[0]
     return base, names, argf, p, a1, a2, a3, arg_alpha, ordinary
 
@@ -196,6 +198,7 @@ def _parser_case(ctx: F.Ctx) -> F.Outcome:
     out = F.Outcome(n_evals=0)
     obs = []
     trials = [([""], ["@default"])]
+    trials.append((["", "@" + names[0], "{yyyymmdd[0]}_lit.zo"], ["@" + names[0], "{yyyymmdd[0]}_lit.zo"]))
     for g in names:
         trials.append((["", "@" + g], ["@" + g]))
         trials.append((["", "@" + g, argf[0]], ["@" + g, argf[0]]))
@@ -255,7 +258,7 @@ def run(ctx: F.Ctx):
             "every acyclic map {g1,g2,g3} with member lists up to the stated "
             "lengths over {2 literal paths, {yyyymmdd[0]}, {yyyymmdd[6]}, "
             "{days[1]:%Y}, @later-group}; every argument list up to the stated "
-            "length over {@g1,@g2,@g3, 2 paths}; 5 frozen days (one ordinary + 4 "
+            "length over {@g1,@g2,@g3, 2 plain paths, 2 paths containing braces}; 5 frozen days (one ordinary + 4 "
             "window-edge days). One evaluation = one real expansion compared "
             "with the flatten model (+ the concatenation law for every split). "
             "Non-trivial = the map nests a group inside a group AND the "
